@@ -3,7 +3,7 @@
 From Coq Require Import Sorting.Sorted Sorting.Permutation.
 From Sdns Require C02.Model C02.Proofs_Gen.
 From Sdns Require Import Common.Base Common.GoList Gen.C14 C14.Model C14.Run
-  C14.Proofs_rsa C14.Proofs_keytag C14.Proofs_rsamd5 C14.Proofs_canon C14.Proofs_verify C14.Proofs_offset C14.Proofs_walk C14.Proofs_loops.
+  C14.Proofs_rsa C14.Proofs_keytag C14.Proofs_rsamd5 C14.Proofs_canon C14.Proofs_verify C14.Proofs_offset C14.Proofs_walk C14.Proofs_loops C14.Proofs_synth.
 Open Scope N_scope.
 
 (* the root zone's KSK-2017: flags 257, protocol 3, algorithm 8; its published key tag is 20326 *)
@@ -159,4 +159,22 @@ Example compare_suffix_plain_example :
 Proof.
   cbv zeta. split; [|split; [|split; vm_compute; reflexivity]];
   repeat (apply Forall_cons; [split; [discriminate | split; vm_compute; intuition discriminate]|]); apply Forall_nil.
+Qed.
+
+(* the hypotheses of synthesised_cname_translation_is_the_dname_substitution hold for the example's names, and both sides are true *)
+Example synth_translation_example :
+  let o := [bs "x"; bs "d"; bs "Example"] in
+  let ds := [([bs "other"; bs "example"], bs "u.net."); ([bs "D"; bs "example"], bs "t.net.")] in
+  C02.Proofs_Gen.plain_name o /\ Forall (fun d => C02.Proofs_Gen.plain_name (fst d)) ds /\
+  C02.Proofs_Gen.present o = bs "x.d.Example." /\
+  is_synthesized_cname (C02.Proofs_Gen.present o) (bs "X.t.net") (map present_d ds) = true /\
+  existsb (synth_one o (bs "X.t.net")) ds = true /\
+  is_synthesized_cname (C02.Proofs_Gen.present [bs "d"; bs "Example"]) (bs "t.net.") (map present_d ds) = false.
+Proof.
+  cbv zeta.
+  assert (PL : forall l, forallb (fun c => negb (c =? 46)%N && negb (c =? 92)%N) l = true -> l <> [] -> C02.Proofs_Gen.plain_label l).
+  { intros l H Hne. split; [exact Hne|]. rewrite forallb_forall in H.
+    split; intros Hin; specialize (H _ Hin); cbn in H; discriminate. }
+  repeat split; try (vm_compute; reflexivity);
+  repeat (apply Forall_cons || apply Forall_nil || (apply PL; [vm_compute; reflexivity | discriminate])).
 Qed.
